@@ -4,6 +4,7 @@ Operator level: for every non-assignment operator variant, Operator::eval(&c) an
 same symbolic arguments and the same HashMapContext pre-state; results must agree on every pair of compatible paths and the mutable run
 must leave the context unchanged; for the 9 assignment variants Operator::eval must return ContextNotMutable for every argument vector.
 Tree level: the inductive step of C08 on both node evaluators (same event structure; the read-only evaluator applies Operator::eval)."""
+import zlib
 import sys, os, time, random, itertools, re
 import z3
 sys.path.insert(0, os.path.dirname(os.path.dirname(os.path.abspath(__file__))))
@@ -15,6 +16,7 @@ import c08
 from c12 import equal_term
 
 PID = 'C11'
+CVC5_RATE = [0.01]
 NON_ASSIGN = ['RootNode', 'Add', 'Sub', 'Neg', 'Mul', 'Div', 'Mod', 'Exp', 'Eq', 'Neq', 'Gt', 'Lt', 'Geq', 'Leq', 'And', 'Or', 'Not', 'Tuple', 'Chain',
               'Const', 'VariableIdentifierWrite', 'VariableIdentifierRead', 'FunctionIdentifier']
 ASSIGN = ['Assign', 'AddAssign', 'SubAssign', 'MulAssign', 'DivAssign', 'ModAssign', 'ExpAssign', 'AndAssign', 'OrAssign']
@@ -71,7 +73,7 @@ def unit(u, res):
     C = ctx()
     if kind == 'equiv':
         _, opname, ident, shapes, timeout_ms, seed = u
-        pr = checklib.Prover(res, timeout_ms)
+        pr = checklib.Prover(res, timeout_ms, CVC5_RATE[0], random.Random(zlib.crc32(repr(u).encode()) ^ checklib.env_seed()))
         cons, ro, h1, pre, flag = run_op(C, res, opname, ident, shapes, False, 'hashmap')
         cons2, mu, h2, pre2, flag2 = run_op(C, res, opname, ident, shapes, True, 'hashmap')
         name = '%s[%s]%s' % (opname, ident, shapes)
@@ -108,7 +110,7 @@ def unit(u, res):
             res.samples.append(dict(unit=name, read_only_paths=len(ro), mutable_paths=len(mu)))
     elif kind == 'assign_ro':
         _, opname, shapes, ctxkind, timeout_ms, seed = u
-        pr = checklib.Prover(res, timeout_ms)
+        pr = checklib.Prover(res, timeout_ms, CVC5_RATE[0], random.Random(zlib.crc32(repr(u).encode()) ^ checklib.env_seed()))
         cons, ro, h1, pre, flag = run_op(C, res, opname, 'x', shapes, False, ctxkind)
         for p in ro:
             res.nontrivial_paths += 1
@@ -177,6 +179,7 @@ def main():
     t0 = time.time()
     tier = checklib.env_tier()
     seed = checklib.env_seed()
+    CVC5_RATE[0] = 0.002 if tier == 'quick' else 0.02
     timeout_ms = 60000 if tier == 'quick' else 600000
     frontend.load(overflow_checks=True)
     eshapes = ['I', 'F', 'B', 'S1', 'T1', 'E']
